@@ -36,12 +36,13 @@ const char kAlphabet[] = "ABCDEFGHIJKLMNOPQRSTUVWXYZabcdefghijklmnopqrstuvwxyz01
 struct Rec {           // one record as seen by a sink
   int t = -1; long seq = -1; int level_code = 0; long tid = 0; std::string module, file, text; bool trunc = false;
 };
-struct Call { int t; long seq; int level; int module; size_t len; bool puts; int round; };
+struct Call { int t; long seq; int level; int module; size_t len; bool puts; int round; bool multiline; };
 
-std::string text_of(int t, long seq, size_t len) {
+// multiline: about every 9th character is a line feed (a dumped JSON document, a back trace ...): still ONE record
+std::string text_of(int t, long seq, size_t len, bool multiline = false) {
   std::string s(len, 'x');
   uint32_t g = (uint32_t)(t * 7919 + seq * 104729 + 17);
-  for (size_t i = 0; i < len; ++i) { g = g * 1664525u + 1013904223u; s[i] = kAlphabet[(g >> 16) % (sizeof(kAlphabet) - 1)]; }
+  for (size_t i = 0; i < len; ++i) { g = g * 1664525u + 1013904223u; s[i] = kAlphabet[(g >> 16) % (sizeof(kAlphabet) - 1)]; if (multiline && (g >> 8) % 9 == 0) s[i] = '\n'; }
   return s;
 }
 
@@ -94,8 +95,10 @@ bool parse_line(const std::string &ln, Rec &r, std::string &why) {
 bool parse_stream(const std::string &s, std::vector<Rec> &out, std::string &err) {
   size_t p = 0;
   while (p < s.size()) {
-    size_t e = s.find('\n', p);
-    if (e == std::string::npos) { err = "output does not end with a newline (record cut short)"; return false; }
+    // a record ends at the line feed behind its "-- file:line" tail (the text itself may contain line feeds, never "-- ")
+    size_t tl = s.find("-- ", p);
+    size_t e = tl == std::string::npos ? std::string::npos : s.find('\n', tl);
+    if (e == std::string::npos) { err = "output does not end with a complete record (record cut short): '" + s.substr(p, std::min<size_t>(s.size() - p, 120)) + "'"; return false; }
     Rec r; std::string why;
     if (!parse_line(s.substr(p, e - p), r, why)) { err = "unparsable record line (" + why + "): '" + s.substr(p, std::min<size_t>(e - p, 160)) + "'"; return false; }
     out.push_back(std::move(r)); p = e + 1;
@@ -138,7 +141,7 @@ std::string run(const Scenario &s, CaseInfo &info) {
         switch (op.in(3, 0, 9)) { case 0: L = 0; break; case 1: L = 1; break; case 2: L = maxlen ? maxlen - 1 : 0; break; case 3: L = maxlen; break; case 4: L = maxlen + 1; break;
           case 5: L = 2047 + (size_t)(k % 4); break; case 6: L = 3 * maxlen + 1; break; default: L = (size_t)k % 200; }
         if (L > 400000) L = 400000;
-        c.len = L; c.puts = op.in(5, 0, 1) == 1; c.round = cur_round; script[t].push_back({0, c}); break; }
+        c.len = L; c.puts = (op.in(5, 0, 3) & 1) == 1; c.multiline = (op.in(5, 0, 3) & 2) != 0; c.round = cur_round; script[t].push_back({0, c}); break; }
       case SPLIT: if (cur_round == 0) { cur_round = 1; early_mask = (unsigned)op.in(0, 0, 7); early_reverse = op.in(1, 0, 1) == 1; reen_mask = (unsigned)op.in(2, 0, 7); } break;
       case YIELD: { Call c{}; c.len = (size_t)op.in(1, 0, 500); c.round = cur_round; script[op.in(0, 0, kMaxThreads - 1)].push_back({1, c}); break; }
       default: break;
@@ -187,7 +190,7 @@ std::string run(const Scenario &s, CaseInfo &info) {
 
   // ---- what a sink has got so far (no waiting)
   std::string err;
-  bool any_trunc = false, any_roll = false, cross_boundary = false;
+  bool any_trunc = false, any_roll = false, cross_boundary = false, any_multiline = false;
   char buf[400];
   auto collect = [&](size_t i, std::vector<Rec> &got) {
     SinkSpec &sp = specs[i];
@@ -232,7 +235,7 @@ std::string run(const Scenario &s, CaseInfo &info) {
         if (st.second.round == 1) barrier();
         if (st.first == 1) { if (st.second.len < 50) std::this_thread::yield(); else std::this_thread::sleep_for(std::chrono::microseconds(st.second.len)); continue; }
         const Call &c = st.second;
-        std::string txt = text_of(t, c.seq, c.len);
+        std::string txt = text_of(t, c.seq, c.len, c.multiline);
         if (c.puts) LogPrintfFunc(kModules[c.module], fn, "/some/dir/h.cpp", (int)c.seq, c.level, 0, txt.c_str());
         else LogPrintfFunc(kModules[c.module], fn, "/some/dir/h.cpp", (int)c.seq, c.level, 1, "%s", txt.c_str());
       }
@@ -282,7 +285,7 @@ std::string run(const Scenario &s, CaseInfo &info) {
       if (r.seq <= last_seq[r.t]) { snprintf(buf, sizeof buf, "sink %zu (kind %d): thread %d's records out of order (seq %ld after %ld)", i, sp.kind, r.t, r.seq, last_seq[r.t]); err = buf; break; }
       last_seq[r.t] = r.seq;
       const Call &c = *it->second;
-      std::string full = text_of(c.t, c.seq, c.len);
+      std::string full = text_of(c.t, c.seq, c.len, c.multiline); if (c.multiline && full.find('\n') != std::string::npos) any_multiline = true;
       bool want_trunc = c.len > maxlen; std::string want = want_trunc ? full.substr(0, maxlen) : full;
       if (want_trunc) any_trunc = true;
       if (r.text != want) { snprintf(buf, sizeof buf, "sink %zu (kind %d): text of thread %d seq %ld is damaged: got %zu bytes, expected %zu (original %zu, max %zu)", i, sp.kind, r.t, r.seq, r.text.size(), want.size(), c.len, maxlen); err = buf; break; }
@@ -308,6 +311,8 @@ std::string run(const Scenario &s, CaseInfo &info) {
   info.cls_if(cross_boundary, "record_crosses_pipe_buffer");
   info.cls_if(any_trunc, "truncated_record");
   info.cls_if(any_roll, "file_rollover");
+  info.cls_if(any_multiline, "record_text_with_embedded_line_feeds");
+  info.cls_if(any_multiline && any_roll, "multi_line_records_with_file_rollover");
   info.cls_if(saved_stdout >= 0, "in_tree_stdout_sink");
   { bool some_early = false, some_late = false; for (size_t i = 0; i < specs.size(); ++i) (early[i] ? some_early : some_late) = true; info.cls_if(cur_round == 1 && some_early && some_late, "sink_disabled_while_others_stay_enabled"); }
   { bool re = false; for (size_t i = 0; i < specs.size(); ++i) if (reenabled[i]) re = true; info.cls_if(re, "sink_object_enabled_again_after_disable"); }
@@ -329,7 +334,7 @@ SubDef def = [] {
     auto sink = mkop(SINK, {range(0, 4), rc::gen::weightedOneOf<int64_t>({{3, rc::gen::just<int64_t>(8)}, {3, range(-1, 8)}}), range(0, 4), range(1, 3), range(0, 3), range(0, 2), range(0, 4)});
     auto sinks = rc::gen::resize(3, rc::gen::container<std::vector<Op>>(sink));
     auto opg = rc::gen::weightedOneOf<Op>({
-      {12, mkop(LOG, {th, range(0, 7), range(0, 3), range(0, 9), range(0, 3000), range(0, 1)})},
+      {12, mkop(LOG, {th, range(0, 7), range(0, 3), range(0, 9), range(0, 3000), rc::gen::weightedOneOf<int64_t>({{3, range(0, 1)}, {1, range(2, 3)}})})},
       {2, mkop(YIELD, {th, rc::gen::weightedOneOf<int64_t>({{3, range(0, 49)}, {1, range(50, 500)}})})},
       {2, mkop(MODLVL, {range(0, 2), range(0, 3), range(-1, 7)})},
       {1, mkop(SPLIT, {range(0, 7), range(0, 1), range(0, 7)})},
